@@ -183,7 +183,17 @@ func (s *LogStore) verify(report *VerificationReport) {
 		report.Err = fmt.Errorf("unable to verify log range %s: %w", report.Range, err)
 		return
 	}
-	if first > report.Range.Start {
+	last, err := s.s.LastIndex()
+	if err != nil {
+		report.Err = fmt.Errorf("unable to verify log range %s: %w", report.Range, err)
+		return
+	}
+	// first == 0 is an empty log (e.g. everything was removed when a snapshot
+	// was installed after the checkpoint arrived); last+1 < End is a log whose
+	// tail was truncated after the checkpoint arrived. Either way part of a
+	// non-empty range is missing.
+	lacksTail := report.Range.End > report.Range.Start && (first == 0 || last+1 < report.Range.End)
+	if first > report.Range.Start || lacksTail {
 		// We don't have enough logs to calculate this correctly.
 		report.Err = ErrRangeMismatch
 		return
